@@ -91,6 +91,9 @@ type Reporter struct {
 	mu      sync.Mutex
 }
 
+// NewScratchReporter returns a reporter that is not connected to a journal (census runs).
+func NewScratchReporter() *Reporter { return newReporter(-1, nil) }
+
 func newReporter(idx int, journal *os.File) *Reporter {
 	return &Reporter{line: caseLine{Idx: idx, Obs: map[string]int64{}, Max: map[string]int64{}}, keyset: map[uint64]struct{}{}, sets: map[string]map[uint64]struct{}{}, journal: journal}
 }
